@@ -210,6 +210,9 @@ def check_recoverable(pre, crashed_root, post, label):
         elif x.exit in (31, 32, 33):
             zero = [a for a, st in cur.items() if (pre.get(a) is None or not pre[a]["manifests"])]
             probs.append(f"{label}: {cmd} refuses with {x.exit}" + (" [zero-prior-generation history: %s]" % ",".join(zero) if zero else ""))
+        elif x.exit not in ((0, 30) if cmd == "info" else (0, 10, 11, 21, 30)):
+            # "loads the history normally": the only acceptable outcomes are the command's own verdicts on the tree
+            probs.append(f"{label}: {cmd} ends with exit {x.exit}, which is none of its verdicts on a loadable history")
     # the interrupted generation is all or nothing
     for a, st in cur.items():
         for name, b in st["manifests"].items():
